@@ -421,6 +421,34 @@ var subC18Misc = &fw.Sub{Name: "c18.misc", New: func() fw.Case { return &c18Misc
 			return fw.Failf("-h prints the usage and exits 0", "status %d stdout %q", r.code, r.stdout)
 		}
 		fw.TallyOutcome("help")
+	case "stdin-offset":
+		// standard input is a file the caller has already read a part of: the tool processes what is left
+		for _, argv := range [][]string{{}, {"-"}, {"-r", "-"}} {
+			for _, skip := range []string{"", "print \"consumed by the caller\"\n", "this line is not bcl )\n"} {
+				rest := c18Progs["ok"]
+				path := filepath.Join(dir, "stdin.txt")
+				os.WriteFile(path, []byte(skip+rest), 0o644)
+				f, err := os.Open(path)
+				if err != nil {
+					return fw.Failf("open", "%v", err)
+				}
+				f.Seek(int64(len(skip)), io.SeekStart)
+				cmd := exec.Command(cliBin(), argv...)
+				cmd.Dir = dir
+				cmd.Stdin = f
+				var o, e bytes.Buffer
+				cmd.Stdout, cmd.Stderr = &o, &e
+				rerr := cmd.Run()
+				f.Close()
+				want := runCLI(dir, rest, argv...)
+				if rerr != nil || o.String() != want.stdout || want.code != 0 {
+					return fw.Failf(fmt.Sprintf("bcl %v with a file at offset %d as standard input behaves as with the remaining bytes piped in: %q", argv, len(skip), fw.Trunc(want.stdout, 200)),
+						"err=%v stdout %q stderr %q", rerr, fw.Trunc(o.String(), 200), fw.Trunc(e.String(), 200))
+				}
+				fw.Tally("process_runs", 2)
+			}
+		}
+		fw.TallyOutcome("exit-0")
 	case "io":
 		r := runCLI(dir, "", strings.Fields(parts[1])...)
 		if f := expect("I/O error "+parts[1], r, 1); f != nil {
@@ -565,7 +593,7 @@ func init() {
 			for _, u := range []string{"usage:-x", "usage:--foo", "usage:-d1 ok.bcl", "usage:ok.bcl parse.bcl", "usage:--bdump", "usage:--bdump -", "usage:--bdumpx ok.bcl",
 				"usage:--bload=ok.bcb ok.bcl", "usage:-dx ok.bcl", "usage:ok.bcl -d --nope", "help:-h", "help:-d -h", "help:ok.bcl -h -x", "help:-dh",
 				"io:nonexistent.bcl", "io:adir", "io:--bload nonexistent.bcb", "io:--bdump=adir/x/y.bcb ok.bcl", "io:--bload ok.bcl", "io:--bdump=/dev/full ok.bcl", "io:--bdump=/dev/full empty.bcl",
-				"bdump:ok", "bdump:runtime", "bdump:parse", "bdump:empty"} {
+				"bdump:ok", "bdump:runtime", "bdump:parse", "bdump:empty", "stdin-offset:"} {
 				c.Do(subC18Misc, &c18Misc{Name: u})
 			}
 			// level 1
